@@ -238,6 +238,12 @@ def replay_generic(ctx, obj):
     from ._adapters2 import SEARCH_ONLY
 
     ad = ADAPTERS.get(inp["format"]) or SEARCH_ONLY.get(inp["format"])
+    if inp["format"] == "fchk":
+        from . import _fchk
+
+        if inp["kind"] == "c03":
+            return _fchk.replay_c03(inp)
+        ad = _fchk.FCHK_FREE
     if inp["kind"] == "c03raw":
         from ._adapters2 import SPEC_ONLY
 
